@@ -241,6 +241,43 @@ func (s *Sim) Yield(point string, guard func() bool) {
 	s.park(t, point, guard)
 }
 
+// TaskName returns the name of the task the calling goroutine is ("" if unknown).
+func (s *Sim) TaskName() string {
+	g := gid()
+	s.mu.Lock()
+	defer s.mu.Unlock()
+	if t := s.byGid[g]; t != nil {
+		if t.ID < 0 {
+			// not admitted yet: its final name is Name#<count so far + position among pending>
+			n := s.nameCount[t.Name]
+			for _, p := range s.pending {
+				if p == t {
+					break
+				}
+				if p.Name == t.Name {
+					n++
+				}
+			}
+			return fmt.Sprintf("%s#%d", t.Name, n)
+		}
+		return t.Name
+	}
+	return ""
+}
+
+// CountOf returns how many tasks with the given base name have been registered so far.
+func (s *Sim) CountOf(name string) int {
+	s.mu.Lock()
+	defer s.mu.Unlock()
+	n := s.nameCount[name]
+	for _, p := range s.pending {
+		if p.Name == name {
+			n++
+		}
+	}
+	return n
+}
+
 // Y is Yield without a guard.
 func (s *Sim) Y(point string) { s.Yield(point, nil) }
 
